@@ -233,7 +233,8 @@ def compare(ctx, pq, base, pairing, sims):
                     ctx.c["exact_class_comparisons"] += 1
                 else:
                     ctx.c["bounded_class_comparisons"] += 1
-                ctx.c["max_dev_over_tol"] = max(ctx.c["max_dev_over_tol"], dev / tol)
+                if dev <= tol:
+                    ctx.c["max_dev_over_tol"] = max(ctx.c["max_dev_over_tol"], dev / tol)
                 ctx.c["by_pairing"][pairing] = ctx.c["by_pairing"].get(pairing, 0) + 1
                 if not (dev <= tol):
                     idx = int(np.argmax(np.abs(xa - xb)))
